@@ -226,9 +226,24 @@ func adversarial(seed uint64, idx int) ([]byte, string) {
 			}
 			return fmt.Sprintf("lean-size=%d", v)
 		},
-		func() string { wide(); v := mon.Pick(rng, countVals(4)); r.cells = v; return fmt.Sprintf("cells=%d", v) },
-		func() string { wide(); v := mon.Pick(rng, countVals(1)); r.roots = v; return fmt.Sprintf("roots=%d", v) },
-		func() string { wide(); v := mon.Pick(rng, countVals(0)); r.absent = v; return fmt.Sprintf("absent=%d", v) },
+		func() string {
+			wide()
+			v := mon.Pick(rng, countVals(4))
+			r.cells = v
+			return fmt.Sprintf("cells=%d", v)
+		},
+		func() string {
+			wide()
+			v := mon.Pick(rng, countVals(1))
+			r.roots = v
+			return fmt.Sprintf("roots=%d", v)
+		},
+		func() string {
+			wide()
+			v := mon.Pick(rng, countVals(0))
+			r.absent = v
+			return fmt.Sprintf("absent=%d", v)
+		},
 		func() string {
 			wide()
 			v := mon.Pick(rng, append(countVals(r.tot), r.tot-2, r.tot+7))
@@ -570,7 +585,7 @@ func depthOf(root *tboc.Cell, limit int) int {
 	return f(root, limit+2)
 }
 
-func observe(w mon.Sink, wk *mon.Worker, class, id string, in []byte, desc string) {
+func observe(w mon.Sink, wk *mon.Worker, class, id string, in []byte, desc string, deep bool) {
 	if wk != nil {
 		wk.Begin(class+"/"+id, in)
 		defer wk.End()
@@ -613,18 +628,24 @@ func observe(w mon.Sink, wk *mon.Worker, class, id string, in []byte, desc strin
 			return
 		}
 		// post-calls promised by the statement: hashing, printing, re-serialising terminate
+		sharedHasher := tboc.NewHasher()
 		for ri, root := range roots {
 			if ri >= 4 {
 				break
 			}
 			ops := []string{"Hash", "ToBoc", "ToString"}
+			if deep {
+				// the other hashers / serialisers / printers of the anchored files (index, CRC and cache-bit
+				// variants, a hasher shared by all roots, JSON, the text forms, the bit printer)
+				ops = []string{"Hash", "ToBoc", "ToString", "Hash256+HashString", "ToBocCustom(idx,crc,cache)", "ToBocCustom(idx)", "ToBocCustomWithHasher(shared)", "MarshalJSON+ToBocBase64", "BinaryString+ToFiftHex"}
+			}
 			if printCost(root) > 200_000_000 {
 				// ToString prints the unfolded tree (its own budget: 65536 cells), copying the text once per level
 				// of depth. On deep trees with fat cells that is slow but terminating, and a CPU bound there
 				// would be our demand, not the statement's: such roots are skipped by an estimate of the
 				// characters copied (lines x line length x depth). DAGs with a huge unfolding but a modest
 				// estimate are printed: the budget must keep the output bounded
-				ops = ops[:2]
+				ops = append(ops[:2:2], ops[3:]...)
 				w.Count("tostring_skipped_large_unfolding", 1)
 			}
 			for _, op := range ops {
@@ -641,6 +662,24 @@ func observe(w mon.Sink, wk *mon.Worker, class, id string, in []byte, desc strin
 						_, oerr = root.ToBoc()
 					case "ToString":
 						_ = root.ToString()
+					case "Hash256+HashString":
+						if _, oerr = root.Hash256(); oerr == nil {
+							_, oerr = root.HashString()
+						}
+					case "ToBocCustom(idx,crc,cache)":
+						_, oerr = root.ToBocCustom(true, true, true, 0)
+					case "ToBocCustom(idx)":
+						_, oerr = root.ToBocCustom(true, false, false, 0)
+					case "ToBocCustomWithHasher(shared)":
+						_, oerr = root.ToBocCustomWithHasher(sharedHasher, false, true, false, 0)
+					case "MarshalJSON+ToBocBase64": // MarshalJSON is ToBocString in quotes
+						if _, oerr = root.MarshalJSON(); oerr == nil && ri == 0 {
+							_, oerr = root.ToBocBase64()
+						}
+					case "BinaryString+ToFiftHex":
+						bs := root.RawBitString()
+						_ = bs.BinaryString()
+						_ = bs.ToFiftHex()
 					}
 				})
 				cpu := mon.CPUSeconds() - t0
@@ -661,6 +700,9 @@ func observe(w mon.Sink, wk *mon.Worker, class, id string, in []byte, desc strin
 			}
 		}
 	}
+	if err == nil && (len(roots) != 1 || deep) {
+		singleRootForms(w, wk, class, id, in, len(roots))
+	}
 	// fingerprint: class + outcome + error text class => distinct parser paths reached
 	fp := class + "/" + outcome
 	if err != nil {
@@ -669,6 +711,99 @@ func observe(w mon.Sink, wk *mon.Worker, class, id string, in []byte, desc strin
 	}
 	w.Eval(fp + "/" + id)
 	w.Count("outcome_"+outcome, 1)
+	if class == "widths" || class == "grid" || class == "bitlen" {
+		w.Count(class+"_"+outcome, 1)
+	}
+}
+
+// singleRootForms: the helpers that hand out "the" root of a bag, on a bag the parser accepted. Bags with no
+// root or with several roots are the interesting ones: the helpers must answer with an error or a cell, not crash.
+func singleRootForms(w mon.Sink, wk *mon.Worker, class, id string, in []byte, nroots int) {
+	hx := hex.EncodeToString(in)
+	b64 := base64.StdEncoding.EncodeToString(in)
+	js, _ := json.Marshal(hx)
+	for _, form := range []string{"DeserializeSingleRootBoc", "DeserializeSinglRootHex", "DeserializeSinglRootBase64", "Cell.UnmarshalJSON"} {
+		if wk != nil {
+			wk.Begin("single/"+form+"/"+class+"/"+id, in)
+			wk.Note(form)
+		}
+		var c *tboc.Cell
+		var err error
+		p := mon.Guard(func() {
+			switch form {
+			case "DeserializeSingleRootBoc":
+				c, err = tboc.DeserializeSingleRootBoc(in)
+			case "DeserializeSinglRootHex":
+				c, err = tboc.DeserializeSinglRootHex(hx)
+			case "DeserializeSinglRootBase64":
+				c, err = tboc.DeserializeSinglRootBase64(b64)
+			default:
+				c = &tboc.Cell{}
+				err = c.UnmarshalJSON(js)
+			}
+		})
+		if wk != nil {
+			wk.End()
+		}
+		wit := map[string]any{"class": class, "case": id, "form": form, "roots": nroots, "len": len(in), "input_hex": mon.HexTrunc(in, 6000)}
+		if p != nil {
+			wit["panic"], wit["stack"] = p.Value, mon.Trunc(p.Stack, 1500)
+			w.Violation("panic@"+p.Site+"/"+form+"/"+mon.PanicClass(p.Value), wit)
+		} else if err == nil && c == nil {
+			w.Violation("unsound-cells@"+form+"/nil-root", wit)
+		}
+		rc := "1"
+		if nroots == 0 {
+			rc = "0"
+		} else if nroots > 1 {
+			rc = "n"
+		}
+		w.Eval(fmt.Sprintf("single/%s/%s/%s", form, class, id))
+		w.Count("single_root_helpers_roots="+rc, 1)
+	}
+}
+
+// textDamage: what reaches the text entry points from JSON documents, URLs and users besides a clean encoding.
+func textDamage(hx, b64 string) (hexes, b64s, jsons []string) {
+	hexes = []string{"", "0", hx + "0", " " + hx, hx + "\n", strings.ToUpper(hx), "0x" + hx, hx + "zz"}
+	if len(hx) > 0 {
+		hexes = append(hexes, hx[:len(hx)-1], hx[1:])
+	}
+	b64s = []string{"", "=", "====", strings.TrimRight(b64, "="), strings.NewReplacer("+", "-", "/", "_").Replace(b64), b64 + "=", b64 + "\n", " " + b64}
+	if len(b64) > 1 {
+		b64s = append(b64s, b64[:len(b64)-1], b64[:len(b64)/2]+"\n"+b64[len(b64)/2:])
+	}
+	jsons = []string{"", "\"", "\"\"", "null", "0", "[]", "{}", "\"" + hx, hx + "\"", "\"\\u0062" + hx + "\"", "\"" + b64 + "\"", "\"" + hx + "\" ", " \"" + hx + "\""}
+	return
+}
+
+func observeTextDamage(w mon.Sink, wk *mon.Worker, id string, in []byte) {
+	hexes, b64s, jsons := textDamage(hex.EncodeToString(in), base64.StdEncoding.EncodeToString(in))
+	run := func(form string, list []string, f func(s string)) {
+		for i, s := range list {
+			if wk != nil {
+				wk.Begin(fmt.Sprintf("text/%s-damaged%d/%s", form, i, id), []byte(s))
+				wk.Note("text-" + form)
+			}
+			p := mon.Guard(func() { f(s) })
+			if wk != nil {
+				wk.End()
+			}
+			if p != nil {
+				w.Violation("panic@"+p.Site+"/text-"+form+"/"+mon.PanicClass(p.Value), map[string]any{"form": form, "text": mon.Trunc(s, 4000), "panic": p.Value, "stack": mon.Trunc(p.Stack, 1500)})
+			}
+			w.Eval("")
+		}
+	}
+	run("hex", hexes, func(s string) { tboc.DeserializeBocHex(s); tboc.DeserializeSinglRootHex(s) })
+	run("base64", b64s, func(s string) { tboc.DeserializeBocBase64(s); tboc.DeserializeSinglRootBase64(s) })
+	run("json", jsons, func(s string) {
+		var c tboc.Cell
+		json.Unmarshal([]byte(s), &c)
+		var d tboc.Cell
+		d.UnmarshalJSON([]byte(s))
+	})
+	w.Count("text_damage_sets", 1)
 }
 
 // text forms: hex / base64 / JSON go through the same parser plus a decoder
@@ -813,6 +948,73 @@ func bitLenCase(seed uint64, idx int) ([]byte, string) {
 	return r.bytes(), fmt.Sprintf("bitlen n=%d variant=%d", n, variant)
 }
 
+// widthCase: VALID bags at every field width the format allows: size 1..4 x off_bytes 1..8 (the writers of the
+// corpus always choose the minimal widths, so three-byte indices and offsets of 3..8 bytes never occur there),
+// over three bag shapes and the header variants; counts, root indices, references, index entries and the
+// total size are all written at that width. A 300-cell bag does not fit one-byte indices: those combinations
+// are refused cleanly or not at all.
+var widthRadix = []int{4 /*size*/, 8 /*off*/, 3 /*shape*/, 6 /*header variant*/}
+
+var widthCases = func() int {
+	n := 1
+	for _, r := range widthRadix {
+		n *= r
+	}
+	return n
+}()
+
+func widthCase(seed uint64, idx int) ([]byte, string) {
+	d := make([]int, len(widthRadix))
+	x := idx
+	for i, r := range widthRadix {
+		d[i] = x % r
+		x /= r
+	}
+	rng := mon.NewRng(seed ^ uint64(idx)*0x9e3779b97f4a7c15 ^ 0x71d7)
+	r := honest(rng)
+	r.size, r.off = d[0]+1, d[1]+1
+	switch d[2] {
+	case 1: // 300 cells: a binary tree, cell i -> 2i+1, 2i+2
+		n := 300
+		r.cellsRaw = nil
+		for i := 0; i < n; i++ {
+			c := rawCell{d2: 2, data: []byte{byte(i)}}
+			for _, j := range []int{2*i + 1, 2*i + 2} {
+				if j < n {
+					c.refs = append(c.refs, uint64(j))
+				}
+			}
+			c.d1 = byte(len(c.refs))
+			r.cellsRaw = append(r.cellsRaw, c)
+		}
+		r.cells = uint64(n)
+	case 2: // two roots, the second one the last cell: the largest index of the bag in the root list
+		r.roots = 2
+		r.rootList = []uint64{0, 3}
+	}
+	switch d[3] {
+	case 1:
+		r.hasIdx = true
+	case 2:
+		r.hasIdx, r.cache = true, true
+	case 3:
+		r.crc = 1
+	case 4:
+		r.magic, r.hasIdx, r.flagByte = rboc.MagicIdx, true, r.size
+		r.rootList, r.roots = nil, 1
+	case 5:
+		r.magic, r.hasIdx, r.flagByte, r.crc = rboc.MagicIdxCRC, true, r.size, 1
+		r.rootList, r.roots = nil, 1
+	}
+	r.fix()
+	if r.cache { // index entries carry the cache bit in their lowest bit
+		for i := range r.index {
+			r.index[i] = r.index[i]*2 + uint64(i&1)
+		}
+	}
+	return r.bytes(), fmt.Sprintf("widths size=%d off=%d shape=%d header=%d", r.size, r.off, d[2], d[3])
+}
+
 // ---------------------------------------------------------------- jobs
 
 type job struct {
@@ -905,13 +1107,21 @@ func worker(w *mon.Worker) {
 			in, desc = headerGrid(k)
 		} else if j.Class == "bitlen" {
 			in, desc = bitLenCase(w.Seed, k)
+		} else if j.Class == "widths" {
+			in, desc = widthCase(w.Seed, k)
 		} else {
 			in, desc = mutate(j.Class, corp[j.Seed], j.Seed, k, corp, w.Seed)
 		}
 		id := fmt.Sprintf("%d/%d", j.Seed, k)
-		observe(w, w, j.Class, id, in, desc)
+		// the generated classes are small and full of corner bags (no root, several roots, every width): all of
+		// them, and one in 128 of the others (up to 64 KiB), also go through the rarely used entry points
+		deep := j.Class == "grid" || j.Class == "bitlen" || j.Class == "widths" || (k%128 == 0 && len(in) <= 64<<10)
+		observe(w, w, j.Class, id, in, desc, deep)
 		if k%97 == 0 {
 			observeText(w, w, id, in, mon.NewRng(uint64(k)))
+			if len(in) <= 4096 {
+				observeTextDamage(w, w, id, in)
+			}
 		}
 		if k == j.From && j.From%50000 == 0 {
 			w.Sample(map[string]any{"class": j.Class, "desc": desc, "len": len(in), "input_hex": mon.HexTrunc(in, 80)})
@@ -929,7 +1139,7 @@ func main() {
 		tier = os.Args[1]
 	}
 	R := mon.Start("C07", tier)
-	R.Rule = "inputs = every truncation and every single-byte substitution of 40 small valid BOCs (all header variants, written by the reference writer), truncations/header substitutions of larger and real BOCs, random multi-byte edits, splices, adversarial headers from a lying writer (sizes, counts, offsets, root/ref indices self/backward/out of range, ref count 5-7, with-hashes without room, malformed exotic cells, deep chains, diamond ladders, wrong CRC, trailing bytes) and random bytes behind each magic; every input runs in a child process (ulimit -v) under panic/fatal/CPU/allocation monitors, returned roots are walked for soundness and Hash/ToBoc/ToString run under the same monitors; non-trivial = an input that was parsed under the monitors; distinct = distinct (mutation class, case id, outcome/error class)"
+	R.Rule = "inputs = every truncation and every single-byte substitution of 40 small valid BOCs (all header variants, written by the reference writer), truncations/header substitutions of larger and real BOCs, random multi-byte edits, splices, a grid of small headers, a sweep of every bit length, valid bags at every index width 1..4 x offset width 1..8, adversarial headers from a lying writer (sizes, counts, offsets, root/ref indices self/backward/out of range, ref count 5-7, with-hashes without room, malformed exotic cells, deep chains, diamond ladders, wrong CRC, trailing bytes) and random bytes behind each magic; every input runs in a child process (ulimit -v) under panic/fatal/CPU/allocation monitors, returned roots are walked for soundness and Hash/ToBoc/ToString run under the same monitors; on the generated classes and one input in 128 also Hash256/HashString, ToBocCustom (index, CRC, cache bits), ToBocCustomWithHasher with a hasher shared by the roots, MarshalJSON, the text serialisers and the bit printers; every accepted bag with no or several roots (and the same sample) goes through DeserializeSingleRootBoc / SinglRootHex / SinglRootBase64 / Cell.UnmarshalJSON; one input in 97 through the hex / base64 / JSON entry points, clean and damaged (odd length, empty, blanks, other alphabets, unbalanced quotes); non-trivial = an input that was parsed under the monitors; distinct = distinct (mutation class, case id, outcome/error class)"
 	R.Assume(fmt.Sprintf("allocation bound for the parse: %d + %d x len(input) bytes (a minimal cell is 2 input bytes and costs a few hundred bytes of Go objects); CPU bound %v s per input", allocBase, allocPerByte, cpuBound))
 	R.Assume("Hash/ToBoc returning an error on a sound but semantically invalid cell (bad exotic cell) is legal; a panic is not")
 	corp := corpus(R.Seed(), mon.RepoRoot())
@@ -997,6 +1207,7 @@ func main() {
 	}
 	add("grid", 0, gridSize, 4000)
 	add("bitlen", 0, 1024*bitLenVariants, 2048)
+	add("widths", 0, widthCases, 2048)
 	add("adversarial", 0, R.N(12000, 400000), 4000)
 	add("random", 0, R.N(6000, 300000), 20000)
 	R.Extra("jobs", len(jobs))
